@@ -40,6 +40,8 @@ class remove_carriage_return_after_token(structure.Rule):
             lTokens = oToi.get_tokens()
             for iToken, oToken in enumerate(lTokens[: len(lTokens)]):
                 if iToken < 3:
+                    if type(oToken) == parser.comment:
+                        break
                     if isinstance(oToken, parser.carriage_return):
                         oViolation = violation.New(oToi.get_line_number(), oToi, self.solution)
                         self.add_violation(oViolation)
